@@ -132,7 +132,9 @@ where
 
     let lines_pattern = Regex::new(r"^@@.*\+(\d+)(,(\d+))?").unwrap();
 
-    let file_filter = Regex::new(&format!("^{file_filter}$"))?;
+    // Group the filter so that the anchors apply to the whole pattern, not only
+    // to the first and the last alternative of `a|b`.
+    let file_filter = Regex::new(&format!("^(?:{file_filter})$"))?;
 
     let mut current_file = None;
 
